@@ -17,6 +17,7 @@ import (
 	"go/token"
 	"go/types"
 	"math"
+	"strings"
 
 	"golang.org/x/tools/go/ssa"
 
@@ -73,8 +74,34 @@ type Q struct {
 	depth int
 	// Callee lets the caller supply summaries for calls (e.g. utils.Min).
 	Callee func(q *Q, call *ssa.Call, at *ssa.BasicBlock) (Iv, bool)
-	busy   map[busyKey]bool
+	// Strict makes the arithmetic sound for wrap-around: a sum, difference
+	// or product is bounded only when neither end can overflow int64, and
+	// len/cap are bounded above by MaxLen.
+	Strict bool
+	// Param supplies the interval of a parameter (from the call sites).
+	Param func(p *ssa.Parameter) Iv
+	// ParamField supplies the interval of field path of a struct parameter
+	// as received (before any store to the local copy).
+	ParamField func(p *ssa.Parameter, path string) Iv
+	busy       map[busyKey]bool
 }
+
+// DebugRel traces relational facts.
+var DebugRel = false
+
+// MaxLen bounds len and cap in strict mode: no slice, string or map of the
+// analysed program holds more elements than the address space has bytes.
+const MaxLen = int64(1) << 48
+
+// Hull is the smallest interval containing a and b.
+func (a Iv) Hull(b Iv) Iv { return a.hull(b) }
+
+// Meet intersects a and b.
+func (a Iv) Meet(b Iv) Iv { return a.meet(b) }
+
+// GuardBound is what the branch conditions on every path to block at
+// establish for the versioned expression expr.
+func (q *Q) GuardBound(expr string, at *ssa.BasicBlock) Iv { return q.guardBound(expr, at) }
 
 type busyKey struct {
 	v  ssa.Value
@@ -89,6 +116,11 @@ type condFact struct {
 	iv    Iv
 	neq   bool  // the edge establishes expr != ne
 	ne    int64
+	// relational fact: expr OP other, the interval is derived from other's
+	// interval at the branch on first use
+	other ssa.Value
+	op    token.Token
+	ready bool
 }
 
 func New(f *symx.Fn) *Q {
@@ -117,6 +149,9 @@ func (q *Q) collect() {
 		case xc && !yc:
 			e, c, op = y, cx, ssau.Flip(op)
 		default:
+			if !xc && !yc {
+				q.collectRel(iff, op, x, y)
+			}
 			continue
 		}
 		if b, ok := e.Type().Underlying().(*types.Basic); !ok || b.Info()&types.IsInteger == 0 {
@@ -149,9 +184,70 @@ func (q *Q) collect() {
 	}
 }
 
+// collectRel records x OP y for two non-constant integer operands: each side
+// is bounded through the other's interval at the branch.
+func (q *Q) collectRel(iff *ssa.If, op token.Token, x, y ssa.Value) {
+	if b, ok := x.Type().Underlying().(*types.Basic); !ok || b.Info()&types.IsInteger == 0 {
+		return
+	}
+	add := func(e, other ssa.Value, succ int, o token.Token) {
+		switch o {
+		case token.GTR, token.GEQ, token.LSS, token.LEQ, token.EQL:
+			q.conds = append(q.conds, condFact{block: iff.Block(), succ: succ, expr: q.F.E(e), other: other, op: o})
+		}
+	}
+	add(x, y, 0, op)
+	add(x, y, 1, ssau.Negate(op))
+	add(y, x, 0, ssau.Flip(op))
+	add(y, x, 1, ssau.Negate(ssau.Flip(op)))
+}
+
+// resolve turns the relational facts about expression s into intervals.
+func (q *Q) resolve(s string) {
+	for i := range q.conds {
+		c := &q.conds[i]
+		if c.other == nil || c.ready || c.expr != s {
+			continue
+		}
+		// a result computed inside a cut-off recursion carries no information
+		// and is not kept; ready doubles as the in-progress mark
+		c.ready = true
+		o := q.At(c.other, c.block)
+		c = &q.conds[i]
+		if !o.LoOK && !o.HiOK {
+			c.ready = false
+			continue
+		}
+		if DebugRel {
+			println("resolve", s, c.op.String(), q.F.E(c.other), "lo", o.LoOK, o.Lo, "hi", o.HiOK, o.Hi, "depth", q.depth)
+		}
+		switch c.op {
+		case token.GTR:
+			if o.LoOK && o.Lo < math.MaxInt64 {
+				c.iv = Iv{Lo: o.Lo + 1, LoOK: true}
+			}
+		case token.GEQ:
+			if o.LoOK {
+				c.iv = Iv{Lo: o.Lo, LoOK: true}
+			}
+		case token.LSS:
+			if o.HiOK && o.Hi > math.MinInt64 {
+				c.iv = Iv{Hi: o.Hi - 1, HiOK: true}
+			}
+		case token.LEQ:
+			if o.HiOK {
+				c.iv = Iv{Hi: o.Hi, HiOK: true}
+			}
+		case token.EQL:
+			c.iv = o
+		}
+	}
+}
+
 // guardBound: the tightest bounds on expression s that every path from the
 // entry to block at establishes through branch conditions.
 func (q *Q) guardBound(s string, at *ssa.BasicBlock) Iv {
+	q.resolve(s)
 	out := Iv{}
 	// candidate thresholds
 	var los, his []int64
@@ -233,6 +329,7 @@ func (q *Q) guardBound(s string, at *ssa.BasicBlock) Iv {
 
 // edgeBound: what the edge pred->succ itself establishes about expression s.
 func (q *Q) edgeBound(s string, pred, succ *ssa.BasicBlock) Iv {
+	q.resolve(s)
 	out := Iv{}
 	for _, c := range q.conds {
 		if c.block == pred && c.expr == s && c.succ < len(pred.Succs) && pred.Succs[c.succ] == succ {
@@ -275,7 +372,14 @@ func (q *Q) structural(v ssa.Value, at *ssa.BasicBlock) Iv {
 		if c, ok := ssau.ConstInt(x); ok {
 			return Iv{Lo: c, Hi: c, LoOK: true, HiOK: true}
 		}
+	case *ssa.Parameter:
+		if q.Param != nil {
+			return q.Param(x)
+		}
 	case *ssa.Phi:
+		if iv, ok := q.monotonePhi(x); ok {
+			return iv
+		}
 		var out Iv
 		for i, e := range x.Edges {
 			iv := q.onEdge(e, x.Block().Preds[i], x.Block())
@@ -287,10 +391,13 @@ func (q *Q) structural(v ssa.Value, at *ssa.BasicBlock) Iv {
 		}
 		return out
 	case *ssa.Convert:
-		if b, ok := x.X.Type().Underlying().(*types.Basic); ok && b.Info()&types.IsInteger != 0 {
-			if tb, ok := x.Type().Underlying().(*types.Basic); ok && tb.Info()&types.IsInteger != 0 {
+		sb, ok1 := x.X.Type().Underlying().(*types.Basic)
+		tb, ok2 := x.Type().Underlying().(*types.Basic)
+		if ok1 && ok2 && sb.Info()&types.IsInteger != 0 && tb.Info()&types.IsInteger != 0 {
+			if !q.Strict {
 				return q.At(x.X, at)
 			}
+			return convertIv(q.At(x.X, at), sb, tb)
 		}
 	case *ssa.ChangeType:
 		return q.At(x.X, at)
@@ -298,10 +405,26 @@ func (q *Q) structural(v ssa.Value, at *ssa.BasicBlock) Iv {
 		a, b := q.At(x.X, at), q.At(x.Y, at)
 		switch x.Op {
 		case token.ADD:
+			if q.Strict {
+				return addStrict(a, b)
+			}
 			return addIv(a, b)
 		case token.SUB:
-			return addIv(a, Iv{Lo: -b.Hi, Hi: -b.Lo, LoOK: b.HiOK, HiOK: b.LoOK})
+			nb := Iv{Lo: -b.Hi, Hi: -b.Lo, LoOK: b.HiOK && b.Hi != math.MinInt64, HiOK: b.LoOK && b.Lo != math.MinInt64}
+			if q.Strict {
+				return addStrict(a, nb)
+			}
+			return addIv(a, nb)
 		case token.MUL:
+			if q.Strict {
+				// both operands need both ends, non-negative, and the product must fit
+				if a.LoOK && b.LoOK && a.HiOK && b.HiOK && a.Lo >= 0 && b.Lo >= 0 {
+					if a.Hi == 0 || b.Hi <= math.MaxInt64/max64(a.Hi, 1) {
+						return Iv{LoOK: true, Lo: a.Lo * b.Lo, HiOK: true, Hi: a.Hi * b.Hi}
+					}
+				}
+				return Iv{}
+			}
 			if a.LoOK && b.LoOK && a.Lo >= 0 && b.Lo >= 0 {
 				o := Iv{LoOK: true, Lo: mulSat(a.Lo, b.Lo)}
 				if a.HiOK && b.HiOK {
@@ -309,11 +432,49 @@ func (q *Q) structural(v ssa.Value, at *ssa.BasicBlock) Iv {
 				}
 				return o
 			}
+		case token.QUO:
+			// non-negative dividend, positive divisor
+			if a.LoOK && a.Lo >= 0 && b.LoOK && b.Lo >= 1 {
+				o := Iv{LoOK: true, Lo: 0}
+				if a.HiOK {
+					o.HiOK, o.Hi = true, a.Hi/b.Lo
+					if b.HiOK {
+						o.Lo = a.Lo / b.Hi
+					}
+				}
+				return o
+			}
+		case token.REM:
+			if a.LoOK && a.Lo >= 0 && b.LoOK && b.Lo >= 1 {
+				o := Iv{LoOK: true, Lo: 0}
+				if b.HiOK {
+					o.HiOK, o.Hi = true, b.Hi-1
+				}
+				if a.HiOK && (!o.HiOK || a.Hi < o.Hi) {
+					o.HiOK, o.Hi = true, a.Hi
+				}
+				return o
+			}
+		case token.AND:
+			// x & c for a non-negative constant mask
+			if b.LoOK && b.HiOK && b.Lo == b.Hi && b.Lo >= 0 {
+				return Iv{LoOK: true, Lo: 0, HiOK: true, Hi: b.Hi}
+			}
+		case token.SHR:
+			if a.LoOK && a.Lo >= 0 {
+				return Iv{LoOK: true, Lo: 0, HiOK: a.HiOK, Hi: a.Hi}
+			}
 		}
 	case *ssa.Call:
 		if b, ok := x.Common().Value.(*ssa.Builtin); ok {
 			switch b.Name() {
 			case "len", "cap":
+				if q.Strict {
+					if arr := arrayLen(x.Common().Args[0].Type()); arr >= 0 {
+						return Iv{LoOK: true, Lo: arr, HiOK: true, Hi: arr}
+					}
+					return Iv{LoOK: true, Lo: 0, HiOK: true, Hi: MaxLen}
+				}
 				return Iv{LoOK: true, Lo: 0}
 			case "min":
 				return q.minmax(x.Common().Args, at, true)
@@ -336,8 +497,340 @@ func (q *Q) structural(v ssa.Value, at *ssa.BasicBlock) Iv {
 		if x.Op == token.MUL {
 			return q.load(x)
 		}
+	case *ssa.Field:
+		if p, ok := x.X.(*ssa.Parameter); ok && q.ParamField != nil {
+			return q.ParamField(p, ssau.FieldName(x))
+		}
 	}
 	return Iv{}
+}
+
+func arrayLen(t types.Type) int64 {
+	if p, ok := t.Underlying().(*types.Pointer); ok {
+		t = p.Elem()
+	}
+	if a, ok := t.Underlying().(*types.Array); ok {
+		return a.Len()
+	}
+	return -1
+}
+
+// monotonePhi: a loop counter phi(c, phi+k, ...) with every step k >= 0 is
+// bounded below by the smallest initial constant (k <= 0: bounded above).
+// In strict mode the increasing counter must also be bounded above by a
+// guard on the path to the increment, so that phi+k cannot wrap.
+func (q *Q) monotonePhi(p *ssa.Phi) (Iv, bool) {
+	var inits []int64
+	up, down, steps := true, true, 0
+	for i, e := range p.Edges {
+		if c, ok := ssau.ConstInt(e); ok {
+			inits = append(inits, c)
+			continue
+		}
+		bo, ok := e.(*ssa.BinOp)
+		if !ok || (bo.Op != token.ADD && bo.Op != token.SUB) || bo.X != ssa.Value(p) {
+			// a non-constant initial value with a known interval
+			if ph, isPhi := e.(*ssa.Phi); isPhi && ph == p {
+				continue
+			}
+			iv := q.onEdge(e, p.Block().Preds[i], p.Block())
+			if !iv.LoOK && !iv.HiOK {
+				return Iv{}, false
+			}
+			// treat as an initial value only when it does not depend on p
+			if dependsOn(e, p, 0) {
+				return Iv{}, false
+			}
+			if iv.LoOK && iv.HiOK {
+				inits = append(inits, iv.Lo, iv.Hi)
+			} else if iv.LoOK {
+				inits = append(inits, iv.Lo)
+				down = false
+			} else {
+				inits = append(inits, iv.Hi)
+				up = false
+			}
+			continue
+		}
+		k, ok := ssau.ConstInt(bo.Y)
+		if !ok {
+			return Iv{}, false
+		}
+		if bo.Op == token.SUB {
+			k = -k
+		}
+		steps++
+		if k < 0 {
+			up = false
+		}
+		if k > 0 {
+			down = false
+		}
+		if q.Strict && k != 0 {
+			// the stepped value itself must be bounded on the guarded side at
+			// the back edge: i+1 with i < n cannot wrap
+			g := q.guardBound(q.F.E(p), bo.Block())
+			if k > 0 && !g.HiOK {
+				// a step of one cannot wrap below any strict upper guard
+				// (i < n implies i < MaxInt64); rangeindex form: the guard is
+				// on phi+1 in the header
+				if !(k == 1 && q.hasStrictGuard(q.F.E(p), bo.Block(), true)) && !q.edgeBoundAny(q.F.E(bo), bo.Block()) {
+					return Iv{}, false
+				}
+			}
+			if k < 0 && !g.LoOK {
+				if !(k == -1 && q.hasStrictGuard(q.F.E(p), bo.Block(), false)) {
+					return Iv{}, false
+				}
+			}
+		}
+	}
+	if len(inits) == 0 || steps == 0 {
+		return Iv{}, false
+	}
+	lo, hi := inits[0], inits[0]
+	for _, c := range inits {
+		lo, hi = min64(lo, c), max64(hi, c)
+	}
+	out := Iv{}
+	if up {
+		out.LoOK, out.Lo = true, lo
+	}
+	if down {
+		out.HiOK, out.Hi = true, hi
+	}
+	// the far end, from the guards the stepped value passed to re-enter
+	farOK := true
+	for i, e := range p.Edges {
+		bo, ok := e.(*ssa.BinOp)
+		if !ok || bo.X != ssa.Value(p) {
+			continue
+		}
+		k, _ := ssau.ConstInt(bo.Y)
+		if bo.Op == token.SUB {
+			k = -k
+		}
+		pred := p.Block().Preds[i]
+		g := q.guardBound(q.F.E(bo), pred).meet(q.edgeBound(q.F.E(bo), pred, p.Block()))
+		g2 := q.guardBound(q.F.E(p), bo.Block())
+		if up && !down {
+			switch {
+			case g.HiOK:
+				hi = max64(hi, g.Hi)
+			case g2.HiOK && g2.Hi < math.MaxInt64-k:
+				hi = max64(hi, g2.Hi+k)
+			default:
+				farOK = false
+			}
+		}
+		if down && !up {
+			switch {
+			case g.LoOK:
+				lo = min64(lo, g.Lo)
+			case g2.LoOK && g2.Lo > math.MinInt64-k:
+				lo = min64(lo, g2.Lo+k)
+			default:
+				farOK = false
+			}
+		}
+	}
+	if farOK && up && !down {
+		out.HiOK, out.Hi = true, hi
+	}
+	if farOK && down && !up {
+		out.LoOK, out.Lo = true, lo
+	}
+	return out, out.LoOK || out.HiOK
+}
+
+// edgeBoundAny: the block ends in a branch whose condition bounds expression s
+// from above on the edge that stays in the loop (rangeindex lowering: the
+// incremented counter is compared with the length in the header itself).
+func (q *Q) edgeBoundAny(s string, b *ssa.BasicBlock) bool {
+	q.resolve(s)
+	for _, c := range q.conds {
+		if c.block == b && c.expr == s && c.iv.HiOK {
+			return true
+		}
+	}
+	return false
+}
+
+// hasStrictGuard: every path to block at passes an edge on which expression
+// s is strictly below (above=false: strictly above) some value.
+func (q *Q) hasStrictGuard(s string, at *ssa.BasicBlock, below bool) bool {
+	q.resolve(s)
+	cut := map[[2]int]bool{}
+	for _, c := range q.conds {
+		if c.expr != s {
+			continue
+		}
+		if c.other != nil {
+			if (below && c.op == token.LSS) || (!below && c.op == token.GTR) {
+				cut[[2]int{c.block.Index, c.succ}] = true
+			}
+			continue
+		}
+		if (below && c.iv.HiOK && c.iv.Hi < math.MaxInt64) || (!below && c.iv.LoOK && c.iv.Lo > math.MinInt64) {
+			cut[[2]int{c.block.Index, c.succ}] = true
+		}
+	}
+	return len(cut) > 0 && !ssau.ReachableAvoidingEdges(q.fn, at, cut)
+}
+
+func dependsOn(v ssa.Value, p *ssa.Phi, d int) bool {
+	if v == ssa.Value(p) {
+		return true
+	}
+	if d > 6 {
+		return true
+	}
+	switch x := v.(type) {
+	case *ssa.BinOp:
+		return dependsOn(x.X, p, d+1) || dependsOn(x.Y, p, d+1)
+	case *ssa.Phi:
+		for _, e := range x.Edges {
+			if dependsOn(e, p, d+1) {
+				return true
+			}
+		}
+		return false
+	case *ssa.Convert:
+		return dependsOn(x.X, p, d+1)
+	case *ssa.Const, *ssa.Parameter, *ssa.Call, *ssa.UnOp, *ssa.Extract, *ssa.Lookup:
+		return false
+	}
+	return true
+}
+
+func convertIv(a Iv, from, to *types.Basic) Iv {
+	bits := func(b *types.Basic) (int, bool) {
+		switch b.Kind() {
+		case types.Int8:
+			return 8, true
+		case types.Int16:
+			return 16, true
+		case types.Int32:
+			return 32, true
+		case types.Int64, types.Int:
+			return 64, true
+		case types.Uint8:
+			return 8, false
+		case types.Uint16:
+			return 16, false
+		case types.Uint32:
+			return 32, false
+		case types.Uint64, types.Uint, types.Uintptr:
+			return 64, false
+		}
+		return 64, true
+	}
+	fb, fs := bits(from)
+	tb, ts := bits(to)
+	// the source's own range
+	src := a
+	if !fs {
+		src = src.meet(Iv{LoOK: true, Lo: 0})
+		if fb < 64 {
+			src = src.meet(Iv{HiOK: true, Hi: int64(1)<<uint(fb) - 1})
+		}
+	} else if fb < 64 {
+		src = src.meet(Iv{LoOK: true, Lo: -(int64(1) << uint(fb-1)), HiOK: true, Hi: int64(1)<<uint(fb-1) - 1})
+	}
+	// representable in the target?
+	var tlo, thi int64
+	switch {
+	case ts && tb == 64:
+		tlo, thi = math.MinInt64, math.MaxInt64
+	case ts:
+		tlo, thi = -(int64(1) << uint(tb-1)), int64(1)<<uint(tb-1)-1
+	case tb == 64:
+		tlo, thi = 0, math.MaxInt64
+	default:
+		tlo, thi = 0, int64(1)<<uint(tb)-1
+	}
+	if !fs && fb == 64 && !(src.HiOK) {
+		// a uint64 above MaxInt64 wraps when made signed
+		return Iv{}
+	}
+	if src.LoOK && src.HiOK && src.Lo >= tlo && src.Hi <= thi {
+		return src
+	}
+	if src.LoOK && src.Lo >= tlo && !src.HiOK && thi == math.MaxInt64 {
+		return src
+	}
+	if src.HiOK && src.Hi <= thi && !src.LoOK && tlo == math.MinInt64 {
+		return src
+	}
+	return Iv{}
+}
+
+// addStrict adds two intervals; an end is known only when it cannot wrap.
+func addStrict(a, b Iv) Iv {
+	o := Iv{}
+	if a.LoOK && b.LoOK {
+		if s, ok := add64(a.Lo, b.Lo); ok {
+			// the low end is meaningful only if the high end cannot wrap either
+			o.LoOK, o.Lo = true, s
+		}
+	}
+	if a.HiOK && b.HiOK {
+		if s, ok := add64(a.Hi, b.Hi); ok {
+			o.HiOK, o.Hi = true, s
+		}
+	}
+	// a sum may wrap at the unknown end and land anywhere: both ends are
+	// needed unless the unknown side cannot move further out
+	if o.LoOK && !o.HiOK {
+		// wrap upwards possible only if some operand is unbounded above and the other is positive
+		if !(boundedAbove(a, b)) {
+			return Iv{}
+		}
+	}
+	if o.HiOK && !o.LoOK {
+		if !(boundedBelow(a, b)) {
+			return Iv{}
+		}
+	}
+	return o
+}
+
+// boundedAbove: the sum cannot exceed MaxInt64 although an upper end is unknown.
+func boundedAbove(a, b Iv) bool {
+	// unknown upper end on one side means up to MaxInt64: safe only if the other side is <= 0
+	if !a.HiOK && !b.HiOK {
+		return false
+	}
+	if !a.HiOK {
+		return b.Hi <= 0
+	}
+	if !b.HiOK {
+		return a.Hi <= 0
+	}
+	_, ok := add64(a.Hi, b.Hi)
+	return ok
+}
+
+func boundedBelow(a, b Iv) bool {
+	if !a.LoOK && !b.LoOK {
+		return false
+	}
+	if !a.LoOK {
+		return b.Lo >= 0
+	}
+	if !b.LoOK {
+		return a.Lo >= 0
+	}
+	_, ok := add64(a.Lo, b.Lo)
+	return ok
+}
+
+func add64(a, b int64) (int64, bool) {
+	s := a + b
+	if (b > 0 && s < a) || (b < 0 && s > a) {
+		return 0, false
+	}
+	return s, true
 }
 
 func (q *Q) minmax(args []ssa.Value, at *ssa.BasicBlock, isMin bool) Iv {
@@ -423,6 +916,11 @@ func (q *Q) memVersion(key, loc, ver string, seen map[string]bool) Iv {
 		// the store must be to this very location (same rendering), not just
 		// the same class
 		if _, l2 := q.F.LoadKeyOfAddr(st.Addr); l2 != loc {
+			// the whole struct parameter was copied into the local cell and
+			// this field has not been written since
+			if p, ok := st.Val.(*ssa.Parameter); ok && q.ParamField != nil && strings.HasPrefix(loc, l2+".") {
+				return q.ParamField(p, loc[len(l2)+1:])
+			}
 			return Iv{}
 		}
 		return q.At(st.Val, st.Block())
